@@ -4,3 +4,8 @@ TB = "trusted: the Go toolchain/runtime, the harness's own recorder, canonical d
 
 claim("C01", "exploration", "runtime monitoring: round-trip monitor over recorded event logs (rules -> cbe.Encoder -> cbe.Decoder -> rules -> recorder) with exact canonical-data oracle",
       "Every generated rules-accepted stream is encoded and decoded by the real CBE codec in worker processes and the recorded output log is compared with the input log on an exact canonical data view; coverage floors force every integer width class, array form, zone form and container kind to be exercised. Exploration is the right level: the input space is unbounded and the property is about the real codec's behaviour on it.", TB)
+
+claim("C02", "exploration", "runtime monitoring: round-trip monitor over recorded event logs (rules -> CTE encoder -> CTE decoder -> rules -> recorder) with exact canonical-data oracle",
+      "Every generated rules-accepted stream (Unicode torture strings, comments at every grammar position, all time-zone forms, all numeric edge classes) is encoded and decoded by the real CTE codec in worker processes and the recorded output log is compared with the input log on an exact canonical data view; comments are compared by text and kind. Exploration fits an unbounded input space.", TB)
+claim("C03", "exploration", "runtime monitoring: conversion-chain monitor (CBE -> CTE -> CBE and CTE -> CBE) over generated documents and accepted byte-mutants, canonical-data oracle at every stage",
+      "Accepted CBE documents (generated and byte-mutated) and accepted CTE documents are pushed through the real decoder->rules->encoder chains; each stage must accept and the recorded event logs must carry the same canonical data. Mutants are where values the other format cannot spell come from. Exploration fits: the space of accepted documents is unbounded.", TB)
